@@ -293,7 +293,16 @@ def check_case(ctx, case):
     ctx.count("cls:" + s["cls"])
     ctx.evaluated(case, nontrivial=kind not in ("flux_free", "circ_nolink"))
     dev = abs(val - expected)
-    allowed = max(10 * err, 1e-7 * scale)
+    from vfw import tol
+
+    # the library's own documented precision (class floor per node) integrated over the surface / loop
+    lib_floor = 10 * sum(tol.floor_abs(x, "B" if kind.startswith("flux") else "H") for x in specs) * area
+    allowed = max(10 * err, 1e-7 * scale, lib_floor)
+    if kind in ("flux_cutting", "circ_magnet"):
+        # discontinuous integrand (the surface / loop crosses a magnet boundary): the adaptive rule's error
+        # estimate is not reliable there (thorough run: estimate 7e-7, true deviation 2.5e-4 = 4e-6 scale);
+        # a missing or misplaced inside term shifts the integral by 0.1..1 scale
+        allowed = max(allowed, 30 * err, 3e-5 * scale)
     if kind == "flux_cutting":
         ctx.count("cutting_resolution_1e-3" if err < 1e-3 * scale else "cutting_resolution_1e-2")
     if dev > allowed:
